@@ -96,7 +96,9 @@ def tiny_cases(exe, ops, rng, tier):
                     G.line("fp12_back_cyc_sim", 0, 3, *["K:" + G.nonzero(12) for _ in range(3)])
         lines += G.L
         towers += gen_fpx.tower_lines(sel, adm)
-    return gen_fpx.spread(lines, towers) + tail, admitted
+    lines = lines + towers
+    rng.shuffle(lines)
+    return lines + tail, admitted
 
 
 def _count_ops(ev, label, events):
@@ -120,9 +122,10 @@ def cases_for(cfg, lst, ops, rng, tier):
         admitted[name] = adm
         sel = "E%sd" % name
         G = gen_fpx.Gen(sel, p, wbits, rng, ops, tw=1)
+        first = name == PAIRING[cfg][0][0]
         for n in FULL_LEVELS:
             if n in adm:
-                gen_fpx.gen_level(G, n, tier, scale=1.0)
+                gen_fpx.gen_level(G, n, tier, scale=1.0 if (first or not quick) else 0.6)
         for n in HIGH_LEVELS + ([] if quick else SWEEP_LEVELS):
             if n in adm:
                 gen_fpx.gen_level(G, n, tier, scale=0.3 if n <= 24 else 0.15, heavy=(not quick and n <= 24))
@@ -152,7 +155,10 @@ def cases_for(cfg, lst, ops, rng, tier):
         lines += G.L
         tail += G.tail
         towers += gen_fpx.tower_lines(sel, [n for n in adm if n <= (6 if quick else 12)])
-    return gen_fpx.spread(lines, towers) + tail, admitted
+    # stateless events: shuffle so that the expensive ones spread evenly over the TLC shards
+    lines = lines + towers
+    rng.shuffle(lines)
+    return lines + tail, admitted
 
 
 def run(tier, seed):
